@@ -312,6 +312,126 @@ def populateFromPath (host : Host) (m : FileMeta) : Option Str → FileMeta
       filePath := some ((host p.str).getD p.str)
       folderPath := some ((host p.parent.str).getD p.parent.str) }
 
+/-! ## (iii-b) pictures of the legacy Office streams: OfficeArt BLIP record → image object
+
+`_extract_images_from_pictures_stream` (ppt_extractor.py) and `_extract_images_from_workbook` (xls_extractor.py)
+run the same pipeline on every BLIP record: skip the BLIP header (17 bytes, 33 with a secondary UID), sniff the
+payload, name metafiles by their record type, wrap a device-independent bitmap into a BMP **file** (14 more bytes),
+drop duplicates, number from 1, and store `data = payload`, `size_bytes = len(payload)` of the payload as stored. -/
+
+def blipEmf : Nat := 0xF01A
+def blipWmf : Nat := 0xF01B
+def blipDib : Nat := 0xF01F
+/-- record types treated as pictures -/
+def blipTypes : List Nat := [0xF01A, 0xF01B, 0xF01C, 0xF01D, 0xF01E, 0xF01F, 0xF029]
+/-- record instances that carry a second 16-byte UID -/
+def blipSecondUid : List Nat := [0x46B, 0x6E1]
+
+def blipHeaderSize (inst : Nat) : Nat := if blipSecondUid.contains inst then 33 else 17
+
+/-- file signatures of `detect_image_type`, in the order they are tried: (prefix, content type) -/
+def imageSignatures : List (List Nat × String) := [
+  ([0x89, 0x50, 0x4E, 0x47, 0x0D, 0x0A, 0x1A, 0x0A], "image/png"),
+  ([0xFF, 0xD8, 0xFF], "image/jpeg"),
+  ([0x47, 0x49, 0x46, 0x38], "image/gif"),
+  ([0x42, 0x4D], "image/bmp"),
+  ([0x49, 0x49, 0x2A, 0x00], "image/tiff"),
+  ([0x4D, 0x4D, 0x00, 0x2A], "image/tiff")]
+
+/-- `detect_image_type(data)`: the content type of the first matching signature; nothing for < 8 bytes -/
+def sniffImage (sigs : List (List Nat × String)) (d : List Nat) : Option String :=
+  if d.length < 8 then none else (sigs.find? fun s => s.1.isPrefixOf d).map (·.2)
+
+def le16At (d : List Nat) (i : Nat) : Nat := d.getD i 0 + 256 * d.getD (i + 1) 0
+def le32At (d : List Nat) (i : Nat) : Nat := le16At d i + 65536 * le16At d (i + 2)
+/-- `struct.pack("<I", n)` -/
+def le32 (n : Nat) : List Nat := [n % 256, n / 256 % 256, n / 65536 % 256, n / 16777216 % 256]
+
+/-- `wrap_dib_as_bmp`: a 14-byte BMP file header in front of a BITMAPINFOHEADER bitmap; nothing for other headers -/
+def wrapDibAsBmp (dib : List Nat) : Option (List Nat) :=
+  if dib.length < 40 then none
+  else if le32At dib 0 ≠ 40 then none
+  else
+    let bpp := le16At dib 14
+    if !([1, 4, 8, 16, 24, 32].contains bpp) then none
+    else
+      let colorTable := if bpp ≤ 8 then 2 ^ bpp * 4 else 0
+      some ([0x42, 0x4D] ++ le32 (14 + dib.length) ++ [0, 0, 0, 0] ++ le32 (14 + 40 + colorTable) ++ dib)
+
+structure BlipRec where
+  recType : Nat
+  inst : Nat
+  data : List Nat
+deriving DecidableEq, Repr
+
+/-- one BLIP record → (content type, payload as stored), or nothing when the record is skipped -/
+def blipPayload (r : BlipRec) : Option (String × List Nat) :=
+  if !(blipTypes.contains r.recType) || r.data.length ≤ 17 then none
+  else
+    let hs := blipHeaderSize r.inst
+    if hs ≥ r.data.length then none
+    else
+      let d := r.data.drop hs
+      match sniffImage imageSignatures d with
+      | some ct => some (ct, d)
+      | none =>
+        if r.recType = blipEmf then some ("image/x-emf", d)
+        else if r.recType = blipWmf then some ("image/x-wmf", d)
+        else if r.recType = blipDib then (wrapDibAsBmp d).map fun b => ("image/bmp", b)
+        else none
+
+/-- a picture as the extractor stores it -/
+structure BlipImage where
+  index : Nat
+  contentType : String
+  image : Image
+deriving DecidableEq, Repr
+
+/-- the loop over the records: duplicates (same stored payload) dropped, `image_index` incremented before use -/
+def blipImagesAux : List (List Nat) → Nat → List BlipRec → List BlipImage
+  | _, _, [] => []
+  | seen, n, r :: rs =>
+    match blipPayload r with
+    | none => blipImagesAux seen n rs
+    | some (ct, p) =>
+      if seen.contains p then blipImagesAux seen n rs
+      else ⟨n + 1, ct, mkImage .bytes (some p)⟩ :: blipImagesAux (p :: seen) (n + 1) rs
+
+def blipImages (recs : List BlipRec) : List BlipImage := blipImagesAux [] 0 recs
+
+/-! ## (iv-b) a process history of `populate_from_path` calls
+
+The file system and the working directory change between calls; each call sees the host as it is **then**.  The
+model of a history answers every call from that call's host and path argument alone — nothing is carried over. -/
+
+structure PathCall where
+  host : Host
+  path : Option Str
+
+def runPathCalls (calls : List PathCall) : List FileMeta :=
+  calls.map fun c => populateFromPath c.host {} c.path
+
+/-- inventory types: a function reachable from `populate_from_path` / a memoised function of the package -/
+structure FnState where
+  file : String
+  name : String
+  decorators : List String        -- decorator expressions as written
+  globalsWritten : List String    -- `global` / `nonlocal` names, module-level containers mutated
+  touchesHost : Bool              -- (transitively, inside its module) asks the file system / working directory
+  onMetadataPath : Bool           -- reachable from `FileMetadataInterface.populate_from_path`
+deriving DecidableEq, Repr
+
+/-- functions of the package that keep process-wide state in a module-level name, reviewed: what they remember is a
+function of the key they remember it under (type registry by class name, AES round keys by key bytes, parsed font
+by font bytes, pypdf patch bookkeeping, the archive limits set by the caller) — never something derived from a path,
+the file system or the working directory, and none of them is on the way to a result's metadata -/
+def reviewedStateWriters : List (String × String) := [
+  ("archive_extractor.py", "configure_archive_extraction"),
+  ("serialization.py", "_get_type_registry"),
+  ("_pypdf_aes_fallback.py", "_get_round_keys"),
+  ("pdf_extractor.py", "_ttf_parse_font"),
+  ("pdf_extractor.py", "_patched_build_char_map")]
+
 /-! ## (v) well-formed Unicode; RTF `\uN` -/
 
 /-- a Python `str` as code points -/
